@@ -110,6 +110,8 @@ def run_cli(spec):
                 r = core.api_run(name, q.text(), clock=False)
                 if r.outcome != "ok" or r.status != "Error":
                     continue      # misses are judged in-process; a fatal file would abort the batch (C04)
+                if not any(d[0] in o["codes"] and d[1] == "Error" and (o.get("anyline") or d[2] == exp) for d in r.diags):
+                    continue      # idem: the CLI clause is about what the rules did emit
                 with open(os.path.join(tmp, name), "w") as f:
                     f.write(q.text())
                 names.append(name)
